@@ -2,7 +2,8 @@
    The theorems are about the generic codec of Model/SchemaM.v; the per-type field lists are
    regenerated from dns/rdtypes/** on every run and checked against `entry_ok` (theorem
    gen_table_ok in the generated file), so that they apply to every generated type. *)
-From DV Require Import Base.Prelude Model.NameM Model.SchemaM Proofs.SchemaThm Proofs.SchemaFix Proofs.SchemaTable.
+From DV Require Import Base.Prelude Model.NameM Model.SchemaM Proofs.SchemaCodec Proofs.SchemaThm Proofs.SchemaFix Proofs.SchemaTable Proofs.SchemaOrigin.
+From DV Require Proofs.NameValid.
 Open Scope Z_scope.
 
 (* from_wire(to_wire(x)) = x for every well-formed schema and every value the constructor
@@ -74,6 +75,36 @@ Theorem table_fixed_point : forall tbl e w r ck wire cur rdlen vs,
 Proof. exact table_fixed_point_none. Qed.
 Print Assumptions table_fixed_point.
 
+(* with an origin: relative names (which must fit together with the origin) and absolute names
+   outside the origin come back unchanged; an absolute name below the origin is relativized by
+   the reader (dnspython's design) and is therefore excluded by nok_origin *)
+Theorem schema_roundtrip_origin : forall o fs ck vs b A P,
+  is_absolute o = true -> schema_wf fs = true -> nok_fields (nok_origin o) fs vs ->
+  encode_rdata (Some o) fs ck vs = Ok b ->
+  decode_rdata (Some o) fs ck (A ++ b ++ P) (length A) (length b) = Ok vs.
+Proof. intros o fs ck vs b A P Ho. apply schema_roundtrip_origin_thm. exact Ho. Qed.
+Print Assumptions schema_roundtrip_origin.
+
+Theorem table_roundtrip_origin : forall tbl o e w r ck vs b A P,
+  forallb entry_ok tbl = true -> In e tbl -> entry_origin_ok e = true ->
+  e_codec e = CSchema w r ck -> is_absolute o = true ->
+  nok_fields (nok_origin o) (map fst w) vs ->
+  encode_rdata (Some o) (map fst w) ck vs = Ok b ->
+  decode_rdata (Some o) (map fst r) ck (A ++ b ++ P) (length A) (length b) = Ok vs.
+Proof. exact table_roundtrip_origin_thm. Qed.
+Print Assumptions table_roundtrip_origin.
+
+(* known finding C02-tsig-relative-algorithm-origin: TSIG's reader calls get_name() without the
+   origin its writer appends, so the statement above is false for TSIG (entry_origin_ok fails) *)
+Theorem tsig_origin_roundtrip_refuted :
+  entry_ok (mk_entry 255 250 tsig_w tsig_r CkNone) = true /\
+  exists o vs b,
+    is_absolute o = true /\ nok_fields (nok_origin o) (map fst tsig_w) vs /\
+    encode_rdata (Some o) (map fst tsig_w) CkNone vs = Ok b /\
+    exists vs', decode_rdata (Some o) (map fst tsig_r) CkNone b 0 (length b) = Ok vs' /\ vs' <> vs.
+Proof. exact tsig_origin_roundtrip_refuted_thm. Qed.
+Print Assumptions tsig_origin_roundtrip_refuted.
+
 (* ---------- non-vacuity: the hypotheses are satisfiable on realistic records ---------- *)
 Definition mx_schema := [FS (FU 2 65535); FS (FName true)].
 Definition mx_value := [VS (VI 10); VS (VN [[109; 97; 105; 108]; [101; 120]; []])].
@@ -117,3 +148,17 @@ Example srv_swap_rejected :
      [(FS (FU 2 65535), 1); (FS (FU 2 65535), 0); (FS (FU 2 65535), 2); (FS (FName true), 3)]
      [(FS (FU 2 65535), 0); (FS (FU 2 65535), 1); (FS (FU 2 65535), 2); (FS (FName true), 3)] CkNone) = false.
 Proof. reflexivity. Qed.
+
+(* origin hypotheses are satisfiable: MX 10 mail (relative) with origin example. *)
+Example mx_relative_with_origin :
+  let o := [[101; 120; 97; 109; 112; 108; 101]; []] in
+  let v := [VS (VI 10); VS (VN [[109; 97; 105; 108]])] in
+  nok_fields (nok_origin o) mx_schema v /\
+  exists b, encode_rdata (Some o) mx_schema CkNone v = Ok b /\
+            decode_rdata (Some o) mx_schema CkNone b 0 (length b) = Ok v.
+Proof.
+  split.
+  - cbn. repeat split; try exact Logic.I. left. split; [reflexivity|]. split; [reflexivity|].
+    unfold NameValid.Valid. cbn. repeat split; try lia; repeat constructor; cbn; try lia; discriminate.
+  - eexists. split; vm_compute; reflexivity.
+Qed.
